@@ -357,4 +357,94 @@ theorem sessEnd_complete (s : State) (frm : TextAddr) (id rating : Nat)
   simp only [Msg.handle, sessEnd, hx', orReject_some, ok_bind, hdec, hdec2, require_true]
   exact ⟨_, rfl⟩
 
+/-- **Completeness of `MsgStart`.**  Index hypotheses (stated explicitly; the Go iterators panic on a
+dangling entry): every lease-index entry for this node points at a payout record, every
+by-allocation index entry of (subscription, sender) points at a session record. -/
+theorem sessStart_complete (s : State) (hk : KeysOK s) (frm node : TextAddr) (id : Nat)
+    (hv : (Msg.sessStart frm id node).validateBasic = .ok ()) (hok : SessStartOK s frm.bytes id node.bytes)
+    (hlease : ∀ a k, (a, node.bytes, k) ∈ s.payForAccNode.keys → (s.payouts.get k).isSome)
+    (hidx : ∀ sid, (id, frm.bytes, sid) ∈ s.sessForAlloc.keys → (s.sessions.get sid).isSome) :
+    (deliver s (.sessStart frm id node)).2 = .accept := by
+  obtain ⟨sub, n, hs, hst, hn, hnst, hcov, ⟨hown, hquota⟩, hnoact⟩ := hok
+  have hnaddr : n.addr = node.bytes := hk.getNode hn
+  have hsid : sub.id = id := hk.subs id sub hs
+  -- the node / plan check
+  have hnc : sessStartNodeCheck (clr s) sub n node.bytes = .ok () := by
+    unfold Covers at hcov
+    cases hkind : sub.kind with
+    | node own gb hr dep =>
+      simp only [hkind] at hcov
+      exact sessStartNodeCheck_node hkind (by rw [hnaddr, hcov])
+    | plan pid dn =>
+      simp only [hkind] at hcov
+      obtain ⟨p, hp, hlink, lease, hl⟩ := hcov
+      exact sessStartNodeCheck_plan (s := clr s) hkind hp
+        (hasPayoutForAccountByNode_of (s := clr s) hl (fun k hk' => hlease p.prov k hk'))
+        ((has_iff_mem_keys _ _).mpr hlink)
+  -- the ownership / quota check
+  have hqc : sessStartQuotaCheck (clr s) sub frm.bytes = .ok () := by
+    refine sessStartQuotaCheck_of hown ?_
+    rcases hquota with h | ⟨a, ha, hlt⟩
+    · left; exact (hourly_iff sub).mpr h
+    · right; exact ⟨a, by rw [hsid]; exact ha, hlt⟩
+  -- the latest session of the allocation
+  have hlat : ∃ latest, latestSessionForAllocation (clr s) id frm.bytes = .ok latest ∧
+      (match latest with | some x => decide (x.status ≠ Status.StatusActive) | none => true) = true := by
+    cases hg : ((allocSessIds (clr s) id frm.bytes).mergeSort (· ≤ ·)).getLast? with
+    | none =>
+      exact ⟨none, latestSessionForAllocation_none (getLast?_mergeSort_eq_none hg), rfl⟩
+    | some sid =>
+      obtain ⟨hm, hmax⟩ := getLast?_mergeSort_le hg
+      have hm' : (id, frm.bytes, sid) ∈ s.sessForAlloc.keys := mem_allocSessIds.mp hm
+      obtain ⟨x, hx⟩ := Option.isSome_iff_exists.mp (hidx sid hm')
+      refine ⟨some x, latestSessionForAllocation_some hm hmax hx, ?_⟩
+      have := hnoact sid hm' (fun k hk' => hmax k (mem_allocSessIds.mpr hk')) x hx
+      simp [this]
+  obtain ⟨latest, hl, hcond⟩ := hlat
+  have hs' : (clr s).subs.get id = some sub := hs
+  have hn' : getNode (clr s) node.bytes = some n := hn
+  have hd1 : decide (sub.status = Status.StatusActive) = true := by simp [hst]
+  have hd2 : decide (n.status = Status.StatusActive) = true := by simp [hnst]
+  apply accept_of_handle hv
+  simp only [Msg.handle, sessStart, hs', hn', orReject_some, ok_bind, hd1, hd2, require_true, hnc, hqc, hl]
+  cases latest with
+  | none => exact ⟨_, rfl⟩
+  | some x =>
+    simp only at hcond
+    simp only [hcond, require_true, ok_bind]
+    exact ⟨_, rfl⟩
+
+/-- **Completeness of `MsgCancel`.**  Index hypotheses: every session indexed under the subscription
+exists; an hourly subscription has its payout record. -/
+theorem subCancel_complete (s : State) (hk : KeysOK s) (frm : TextAddr) (id : Nat)
+    (hv : (Msg.subCancel frm id).validateBasic = .ok ()) (hok : SubCancelOK s frm.bytes id)
+    (hidx : ∀ sid, (id, sid) ∈ s.sessForSub.keys → (s.sessions.get sid).isSome)
+    (hpay : ∀ sub, s.subs.get id = some sub → Hourly sub → (s.payouts.get id).isSome) :
+    (deliver s (.subCancel frm id)).2 = .accept := by
+  obtain ⟨sub, hs, hst, hf⟩ := hok
+  have hsid : sub.id = id := hk.subs id sub hs
+  have hs' : (clr s).subs.get id = some sub := hs
+  have hd1 : decide (sub.status = Status.StatusActive) = true := by simp [hst]
+  have hd2 : decide (frm.bytes = sub.addr) = true := by simp [hf]
+  obtain ⟨s1, h1, hp1⟩ := hookFold_ok (sessionIdsForSub { (clr s) with subQ := (clr s).subQ.erase (sub.inactiveAt, sub.id) } sub.id)
+    { (clr s) with subQ := (clr s).subQ.erase (sub.inactiveAt, sub.id) }
+    (fun sid hm => hidx sid (by rw [← hsid]; exact mem_sessionIdsForSub.mp hm))
+  have hhook : subscriptionInactivePendingHook { (clr s) with subQ := (clr s).subQ.erase (sub.inactiveAt, sub.id) } sub.id = .ok s1 := h1
+  have hdet : ∃ s2, detachPayout (subToPending s1 sub (clr s).params.subDelay).1 sub false = .ok s2 := by
+    unfold detachPayout
+    split
+    · rename_i hh
+      have hsome := hpay sub hs ((hourly_iff sub).mp hh)
+      have : ((subToPending s1 sub (clr s).params.subDelay).1.payouts.get sub.id).isSome := by
+        show (s1.payouts.get sub.id).isSome
+        rw [hp1, hsid]; exact hsome
+      obtain ⟨p, hp⟩ := Option.isSome_iff_exists.mp this
+      simp only [Bool.false_eq_true, if_false, hp, orReject_some, ok_bind]
+      exact ⟨_, rfl⟩
+    · exact ⟨_, rfl⟩
+  obtain ⟨s2, h2⟩ := hdet
+  apply accept_of_handle hv
+  simp only [Msg.handle, subCancel, hs', orReject_some, ok_bind, hd1, hd2, require_true, hhook]
+  exact ⟨s2, h2⟩
+
 end Hub.Props.C08
